@@ -16,6 +16,7 @@
 //	fwd:<n>:<tid>                                              target arrives on node n: Lookup + TunnelConnectionManager.CreateDedicatedConnection
 //
 //	poll:<n>:<tid>:<k>  pend:<n>:<tid>                         SessionManager.lookupTunnelRouting behind a gated store: first k polls / one more poll, then ctx ends
+//	slook:<n>:<tid>  send:<n>:<tid>                            a lookup whose storage reply is held back / let through
 //	restart:<n>                                                node n crashes and restarts over the same storage
 //
 // obs: one token per event (ok eparam nf exp eint estore edata exists skip addr:<hex> found:<fields>:<ttl ms>).
@@ -162,6 +163,7 @@ type redisPool struct {
 	mr      *miniredis.Miniredis
 	ctx     context.Context
 	clients []storage.Storage
+	hooks   []*replyHook // one per client: holds back the reply of a GET when armed (slow.go)
 }
 
 var (
@@ -199,7 +201,10 @@ func (p *redisPool) client(i int) (storage.Storage, error) {
 		if err != nil {
 			return nil, err
 		}
+		h := &replyHook{}
+		c.Client().AddHook(h)
 		p.clients = append(p.clients, c)
+		p.hooks = append(p.hooks, h)
 	}
 	return p.clients[i], nil
 }
@@ -232,6 +237,7 @@ type env struct {
 	shared  storage.Storage
 	old     []oldNode // components of crashed nodes: quiesced and closed at the end of the case
 	pollers map[string]*poller
+	slow    map[string]*slowLookup
 	attached map[string]bool // bridges (node/tid) that already got their target through the local branch
 	unstable bool // a gated schedule could not be forced exactly: the run must not be judged
 	start   time.Time
@@ -302,6 +308,7 @@ func (e *env) buildStore(i int) (*countStore, error) {
 // restart: node n crashes and comes back — new storage object, routing table, session manager and
 // connection manager over the same shared storage; nothing of the old process runs any cleanup now.
 func (e *env) restart(n int) string {
+	e.dropSlow(n)
 	for k, p := range e.pollers { // a lookup that was polling in the crashed process dies with it
 		if strings.HasPrefix(k, strconv.Itoa(n)+"/") {
 			p.abort()
@@ -331,6 +338,7 @@ func (e *env) restart(n int) string {
 }
 
 func (e *env) close() {
+	e.dropSlow(-1)
 	for _, p := range e.pollers {
 		p.abort()
 	}
@@ -493,7 +501,10 @@ func (e *env) exec(tok string) string {
 		return "ok"
 	case "look":
 		n := node()
-		st, err := e.tables[n].LookupWaitingTunnel(ctx, uh(f[2]))
+		st, err, returned := e.guardedLookup(n, uh(f[2]))
+		if !returned {
+			return "err:lookup_waits_for_the_one_in_flight"
+		}
 		if err != nil {
 			return errTok(err)
 		}
@@ -568,6 +579,10 @@ func (e *env) exec(tok string) string {
 		return e.pollEnd(node(), uh(f[2]))
 	case "restart":
 		return e.restart(node())
+	case "slook":
+		return e.slowBegin(node(), uh(f[2]))
+	case "send":
+		return e.slowEnd(node(), uh(f[2]))
 	}
 	panic("unknown event " + tok)
 }
